@@ -35,7 +35,19 @@ func VerifC05RowReplay() {
 		"time": {t},
 		col:    {val},
 	}}
-	rows := ingest.VerifToWALRecords(db, rec)
+	var rows []map[string]interface{}
+	if zz.Bool("typed_batch") {
+		// imports / TLE: a pre-typed batch without raw payload
+		batch := &ingest.TypedColumnBatch{Data: map[string]interface{}{"time": []int64{t}}}
+		if sv, isStr := val.(string); isStr {
+			batch.Data[col] = []string{sv}
+		} else {
+			batch.Data[col] = []int64{val.(int64)}
+		}
+		rows = ingest.VerifTypedToWALRecords(db, meas, batch, 1)
+	} else {
+		rows = ingest.VerifToWALRecords(db, rec)
+	}
 	zz.Assert(len(rows) == 1, "one row must produce one WAL record")
 
 	// --- crash; restart: Recovery hands the decoded records to the callback ---
